@@ -22,7 +22,7 @@ func (c17) Size(tier string) Size {
 	return Size{Batches: 8, Cases: 1500}
 }
 func (c17) Rule() string {
-	return "case = one type spec (0-8 attributes over the 28 kinds, 0-3 relationships) materialised twice, as a soft type and as a reflect.StructOf struct, and ONE history of 1-40 well-typed Set calls (pool values, typed and untyped nil, Set on id) applied to both side by side; after every call every field of both is read back and compared with a last-writer-wins map model; fresh resources from Type.New, SoftResource.New, Wrapper.New must read all-zero with the type's name and fields. Equality laws (reflexive, symmetric, false on every single-change pair: type name, field name, one value, ID) on resources derived from the final state. Type-name pairs include a soft type without a name and a case variant. Non-trivial = history touching >= 2 fields with >= 1 overwrite."
+	return "case = one type spec (0-8 attributes over the 28 kinds, 0-3 relationships) materialised twice, as a soft type and as a reflect.StructOf struct (declaration order shuffled in half of them, 0-3 untagged fields in between), and ONE history of 1-40 well-typed Set calls (pool values, typed and untyped nil, Set on id) applied to both side by side; after every call every field of both is read back and compared with a last-writer-wins map model; fresh resources from Type.New, SoftResource.New, Wrapper.New must read all-zero with the type's name and fields. Equality laws (reflexive, symmetric, false on every single-change pair: type name, field name, one value - including null against a pointer to the kind's zero value -, ID) on resources derived from the final state. Type-name pairs include a soft type without a name and a case variant. Non-trivial = history touching >= 2 fields with >= 1 overwrite."
 }
 func (c17) Assumptions() []string {
 	return []string{"normalisation stated by the property: untyped nil == typed nil pointer for nullable kinds; nil byte slice == empty byte slice; nil []string == empty list",
@@ -470,6 +470,18 @@ func (m c17) equalityLaws(c *Ctx, specs []*TypeSpec, state *ResSpec) {
 			rb.Attrs["niltext"] = Val{K: KString, Null: true, Nil: true}
 			pairs = append(pairs, pair{class: "value/nil-text-vs-nil-pointer", t1: ta, r1: ra, t2: tb, r2: rb})
 		}
+		{
+			// null against a pointer to the kind's zero value (absent vs present-but-empty), for each nullable kind in turn
+			k := allKinds[int(c.Counters["evaluations"])%len(allKinds)]
+			ta := *t
+			ta.Attrs = append(append([]AttrSpec{}, t.Attrs...), AttrSpec{Name: "nullorzero", Kind: k, Null: true})
+			ra, rb := clone(state), clone(state)
+			ra.Attrs["nullorzero"] = Val{K: k, Null: true, Nil: true}
+			z := zeroVal(k, false)
+			z.Null = true
+			rb.Attrs["nullorzero"] = z
+			pairs = append(pairs, pair{class: "value/null-vs-zero", t1: ta, r1: ra, t2: ta, r2: rb})
+		}
 		if len(t.Rels) > 0 {
 			i := int(c.Counters["evaluations"]) % len(t.Rels)
 			t3 := *t
@@ -624,6 +636,7 @@ func (m c17) namedID(c *Ctx) {
 
 func (m c17) Directed(c *Ctx) {
 	sameNameCheck(c, "C17")
+	tagOptCheck(c, "C17")
 	m.namedID(c)
 	c.Name = "witness-equal-ignores-field-names"
 	t := TypeSpec{Name: "t", Attrs: []AttrSpec{{Name: "a", Kind: KInt}}}
